@@ -1060,6 +1060,11 @@ func (in *Interp) eq(a, b V) Bool {
 		if len(xb) != len(yb) {
 			return Bool{C: false}
 		}
+		if in.intMode {
+			if t, ok := in.bytesEqGrouped(xb, yb); ok {
+				return in.mkBool(t)
+			}
+		}
 		acc := in.ts.True()
 		for i := range xb {
 			acc = in.ts.Op("and", 0, acc, in.bterm(in.eq(xb[i], yb[i])))
